@@ -245,7 +245,7 @@ func c06Gen(c *Ctx) {
 }
 
 func init() {
-	Register(&Prop{ID: "C06", Num: 6, NumOf: wideNum(6), SpecMode: "rel", Gen: c06Gen, Impl: c06Impl,
+	Register(&Prop{ID: "C06", Pure: true, Num: 6, NumOf: wideNum(6), SpecMode: "rel", Gen: c06Gen, Impl: c06Impl,
 		Shrink:   trieShrink(true),
 		Describe: func(in []int64) string {
 			if len(in) > 3 && (in[0] == -5 || in[0] == -6) {
